@@ -63,6 +63,7 @@ def cases(tier, seed):
     # one search per configuration, sharded over the workers by its first event (the union over all first events enabled
     # in the initial state is the whole search; the empty history itself is checked by every shard's replay of its prefix)
     for i in range(BOUNDS[tier]["configs"]):
+        yield {"config": i, "depth": 0, "prefix": []}  # the initial state itself
         for ev in enabled(initial()):
             yield {"config": i, "depth": BOUNDS[tier]["depth"], "prefix": [ev]}
 
